@@ -88,7 +88,26 @@ def plan(tier: str, seed: int) -> List[Dict[str, Any]]:
     return common.split_shards("gen", total, 16, seed, 18, classes=["explicit", "nested", "allkinds", "implicit"])
 
 
+def gen_crowded(rng: random.Random) -> Dict[str, Any]:
+    """Directed shape: k = 2..4 controlled-phase gates on disjoint pairs, all starting together behind one barrier, drawn under a random
+    (usually interleaving) channel order - the drawer arranges gates whose row ranges intersect side by side (seeded change C18-r12)."""
+    k = rng.randint(2, 4)
+    qs = list(range(2 * k))
+    rng.shuffle(qs)
+    steps: List[Dict[str, Any]] = [{"k": rng.choice(["Rx180", "Ry90", "Identity"]), "q": [q]} for q in rng.sample(qs, rng.randint(0, k))]
+    steps.append({"k": "Barrier", "q": sorted(qs)})
+    steps += [{"k": "CPhase", "q": [qs[2 * i], qs[2 * i + 1]]} for i in range(k)]
+    order = sorted(qs)
+    if rng.random() < 0.7:
+        rng.shuffle(order)
+    prog = {"class": "crowded", "circuit": {"reps": 1, "steps": steps}, "settings": gen.make_settings(rng) if rng.random() < 0.5 else {}}
+    prog["drawing"] = {"order": order, "order_mode": "permutation", "labels": None, "compact": rng.random() < 0.6, "unroll": False}
+    return prog
+
+
 def gen_case(rng: random.Random, cls: str) -> Dict[str, Any]:
+    if rng.random() < 0.06:
+        return gen_crowded(rng)
     prog = gen.gen_program(rng, cls, steps=(2, 10), sub_steps=(1, 4), max_depth=2, reps=[1, 1, 2, 3], qubits=5)
     qubits = sorted({q for q in _qubits(prog["circuit"])})
     order_mode = rng.choice(["none", "permutation", "prefix", "unknown", "permutation"])
@@ -292,6 +311,17 @@ def _check_drawing(acc: Acc, case, opt, occupied: List[int], labels, S: M.Settin
                     acc.finding("placement/two-qubit-dot", "a controlled-phase gate that shares its rows with no other simultaneous two-qubit gate is not drawn at its start time",
                                 case, {"qubits": list(n.qubits), "expected": [x_want, y_want], "dots": sorted(dots)[:8]})
                     return
+        # simultaneous controlled-phase gates whose row ranges intersect: the drawer arranges them side by side.  Only OBSERVED (counted), not
+        # judged: the statement asks for the position of the start time and allows the documented artistic offset; it does not say that
+        # such gates may not share an x (the unchanged drawer itself draws two of four such gates at one x - DESIGN.md 9.3, C18-r12)
+        cps = [(n, s_, e_) for n, s_, e_ in two if n.kind == "CPhase" and e_ - s_ > TOL]
+        for i, (a, sa, ea) in enumerate(cps):
+            for b, sb, eb in cps[i + 1:]:
+                if abs(sa - sb) > TOL or set(a.qubits) & set(b.qubits):
+                    continue
+                ra, rb = sorted(row_of[q] for q in a.qubits), sorted(row_of[q] for q in b.qubits)
+                if not (ra[1] < rb[0] or rb[1] < ra[0]):
+                    acc.count("side_by_side_pairs_observed")
     # ---- a barrier is drawn over the rows of ALL of its qubits
     for top_y, bot_y, centers in (_HOOKS.get("barriers") or []):
         acc.count("barrier_extents_checked")
